@@ -325,13 +325,24 @@ func runOutboxStress(c *Case) {
 				return true // judged below
 			}
 			replies := map[uint32]bool{}
-			chats := 0
+			chats, privs := 0, 0
 			for i := range trans {
 				if trans[i].IsReply == 1 {
 					replies[tranID(&trans[i])] = true
 				} else if tranType(&trans[i]) == 106 {
 					chats++
+				} else if tranType(&trans[i]) == 104 {
+					if d, _ := fieldOf(&trans[i], 101); bytes.HasPrefix(d, []byte("pm-")) {
+						privs++
+					}
 				}
+			}
+			wantPriv := 0
+			for _, n := range privTo[sc.idx] {
+				wantPriv += n
+			}
+			if privs < wantPriv {
+				return false
 			}
 			for id, ty := range sc.sent {
 				if replyBearing(ty) && !replies[id] {
@@ -450,8 +461,8 @@ func init() {
 			"goroutine schedules are sampled (stress) or forced at the one point that matters (between two Write calls of one transaction); fairness of the Go scheduler, memory pressure and kernel-level partial writes are outside the model",
 			"transactions fit the protocol: every field at most 65 535 bytes",
 		}
-		x.Add(&Family{Name: "forced-merge", Quick: 500, Thor: 15000, Run: runForcedMerge})
-		x.Add(&Family{Name: "reply-ctors", Quick: 3000, Thor: 200000, Run: runReplyCtors})
-		x.Add(&Family{Name: "outbox-stress", Quick: 80, Thor: 3000, Run: runOutboxStress})
+		x.Add(&Family{Name: "forced-merge", Quick: 500, Thor: 8000, Run: runForcedMerge})
+		x.Add(&Family{Name: "reply-ctors", Quick: 3000, Thor: 100000, Run: runReplyCtors})
+		x.Add(&Family{Name: "outbox-stress", Quick: 80, Thor: 1500, Run: runOutboxStress})
 	}
 }
